@@ -68,6 +68,9 @@ func QuoteString(s StrLit) string {
 func ExprString(e Expr) string {
 	switch x := e.(type) {
 	case IntLit:
+		if x.Oct && x.V >= 0 {
+			return "0" + strconv.FormatInt(x.V, 8)
+		}
 		return strconv.FormatInt(x.V, 10)
 	case BoolLit:
 		if x.V {
